@@ -37,7 +37,7 @@ func Scan(data string, loc SourceLoc, delims []string) (tokens []Token) {
 		}
 		source := data[ts:te]
 		switch {
-		case data[ts:ts+len(delims[0])] == delims[0]:
+		case m[2] >= 0: // the object alternative matched
 			if source[len(delims[0])] == '-' {
 				tokens = append(tokens, Token{
 					Type: TrimLeftTokenType,
@@ -54,7 +54,7 @@ func Scan(data string, loc SourceLoc, delims []string) (tokens []Token) {
 					Type: TrimRightTokenType,
 				})
 			}
-		case data[ts:ts+len(delims[2])] == delims[2]:
+		case m[4] >= 0: // the tag alternative matched
 			if source[len(delims[2])] == '-' {
 				tokens = append(tokens, Token{
 					Type: TrimLeftTokenType,
